@@ -47,7 +47,7 @@ def check_case(rep, drv, case, scripts):
         ok = idr[0] == 'ok' and idr[2] == b'' and gen.val_equiv(case.t, idr[1], case.v)
         if not ok:
             sig = None
-            if sigs.has_constructed_default(case.t) and idr[0] == 'ok':
+            if idr[0] == 'ok' and sigs.t11(case):
                 sig = 'T11-default-of-constructed-type'
             elif has_nested_segments(data):
                 sig = 'D3-nested-constructed-segments'
